@@ -47,6 +47,59 @@ add("C02", "E2-worlds", "exploration",
     "Bound: model family representatives (every 12th r0-signature class in quick, all in thorough), <=2 tuples, C01 universe; tuning corners {default, breadth 1 + reads 1, breadth 2 + dispatch throttling threshold 1}. Whole-engine runs use one Go-scheduler interleaving each (5/5 rule for the concurrency clause); interleavings are enumerated only in the E1 harnesses. Trusted: reference semantics, scripted planner.Manager (h/checks/planner.go).",
     "bounded exhaustive enumeration of inputs x environment answers (planner strategy assignments) on the implementation against a reference model")
 
+add("C03", "E2-worlds", "exploration",
+    "For every world and request the raw weighted-graph CheckQueryV2 runs under every planner strategy assignment and breadth limit {1,10}, next to the default engine and the flag-on Server.Check; object subjects are judged against the reference, userset/wildcard subjects against the rule 'a v2/v1 difference must be reported by the breaking-change detector', errors against 'documented request-shape error or non-terminal (fallback)'.",
+    "Bound: every 8th r0-signature class in quick (all in thorough), <=2 tuples, C01 universe. Raw v2 runs use one Go-scheduler interleaving each (the engine's first-arrival rule makes error-vs-false timing dependent; such answers are classified, not compared for equality). Trusted: reference semantics, scripted planner.",
+    "bounded exhaustive enumeration of inputs x planner strategy assignments on the implementation against a reference model and the v2breaking detector")
+add("C04", "E2-worlds", "exploration",
+    "Every split of every world's tuple set into stored and contextual tuples is executed through Check, BatchCheck, ListObjects, ListUsers and Expand on the default and the weighted-graph/pipeline configuration and compared with the all-stored answers; leak histories <req(C1),req(0)>, <req(C1),req(C2)>, <req(0),req(C1),req(0)> with all caches on are compared with a cache-less server and Read shows no contextual tuple.",
+    "Bound: 4 models x 2 engine configurations in quick (96 in thorough), <=2 tuples, all 2^|T| splits. Free Go scheduling; a deviation is a verdict only when it reproduces (>=4 of 6 on one side, never on the other). Trusted: e2 sweep, reference only for non-triviality.",
+    "bounded exhaustive enumeration of inputs and short request histories on the implementation; differential oracle (all-stored vs split)")
+add("C05", "E2-worlds", "exploration",
+    "ListObjects and StreamedListObjects on the classic, weighted and pipeline engines for every world, relation, subject and context; returned objects must hold (strong reference), no duplicates, completeness when nothing is unevaluable, exactly m objects under a result limit, and soundness under a context cancelled at the k-th datastore read for every k; which engine ran is asserted from the call stacks of the datastore reads.",
+    "Bound: every 6th r0-signature class in quick, <=2 tuples; limits and cancellation on every 48th class (3-doc universe for limits). Free Go scheduling with the 5-re-execution rule. Trusted: reference semantics; zero-read results are reused across worlds and re-executed every 32nd use.",
+    "bounded exhaustive enumeration of inputs and fault points (cancel at k-th read) on the implementation against a reference model")
+add("C06", "E2-worlds", "exploration",
+    "ListUsers for every world, object, relation, the six user filters and three contexts: every returned entry holds (strong reference) and matches the filter, no duplicates, every concrete user (and stored userset) of the filter type that holds is returned or covered by a returned wildcard.",
+    "Bound: every 12th r0-signature class in quick, <=2 tuples (+|T|=3 on every 96th). Free Go scheduling with the 5-re-execution rule. Trusted: reference semantics.",
+    "bounded exhaustive enumeration of inputs on the implementation against a reference model")
+add("C07", "E2-worlds", "exploration",
+    "Batches built from every item alone, every item twice under two correlation ids, and every pair differing only in context / contextual tuples / condition context of a contextual tuple, under max-concurrency {1, default} x query cache {off,on}: the result map has exactly the submitted correlation ids and every outcome equals the standalone Check on the same server.",
+    "Bound: 8 models in quick (48 in thorough), stored+contextual tuples <=2, batches of 1-2 items (+ one all-items batch). Trusted: e2 sweep; standalone Check as the oracle (differential).",
+    "bounded exhaustive enumeration of inputs on the implementation; differential oracle (batch item vs standalone Check)")
+add("C13", "E3-history-bfs", "model_checking",
+    "Explicit-state BFS over write/delete histories on a memory and a SQLite datastore in lock-step (256 tuple-set states over a colliding 8-tuple universe, every state also re-reached by a delete-and-re-add path); in every state a battery of 1588 read calls per backend (every filter combination incl. empty and duplicated lists) must agree between the backends and with a reference transcribed from the storage.go doc comments.",
+    "Bound: 8-tuple universe (10 in thorough), all subsets as states. PostgreSQL/MySQL are not available offline: the shared sqlcommon code is exercised through SQLite only. Trusted: the harness' transcription of the documented filter semantics (h/c13/ref.go); where the docs are silent only memory=SQLite is required.",
+    "explicit-state search over operation histories on the real datastores, deduplicated by observable state, differential + reference-model oracle")
+add("C14", "E5-finite", "exploration",
+    "For n in 0..12 items (up to 120 in thorough) and EVERY page size 1..n+2 on both backends, continuation tokens are followed through Read, ReadChanges, ListStores and ReadAuthorizationModels via the Server API; the concatenation must be the full result exactly once in documented order; ReadChanges tokens replayed with another type, crafted offsets and every single-character mutation/truncation of issued tokens must be rejected or land on a consistent position; panics are caught and reported.",
+    "Bound: n<=12 (quick), 29 queries, both backends; token mutations at edit distance 1. Data creation is serialised (ULIDs are only monotonic within a millisecond for one caller). Trusted: the harness' own item lists.",
+    "exhaustive enumeration of (data size, page size, query, token mutation) on the implementation against list-based reference")
+add("C18", "E2-worlds", "exploration",
+    "For every model of the family (plus hand-written models mixing conditioned and unconditioned restrictions) every tuple over an extended vocabulary (unknown types/relations, wildcards and usersets in every position, self-referencing usersets, every condition x context shape incl. oversized) is submitted to Server.Write on an empty store and as a contextual tuple of a Check; accepted <=> an independent transcription of the property's rule; a rejected write leaves Read/ReadChanges empty.",
+    "Bound: 738+4 models in quick, 12 objects x 8 relations x 41 users x condition/context variants (full block only for new restriction profiles in quick). Trusted: h/c18/oracle.go.",
+    "bounded exhaustive enumeration of inputs on the implementation against an independent validity rule")
+add("C24", "E5-finite", "exploration",
+    "Per key function (sub-problem, batch de-dup, Read/ReadUsersetTuples/ReadStartingWithUser iterator keys, edge key, plain string keys) 15-35k inputs built from separator- and tag-laden component alphabets are keyed and ALL pairs are decided by grouping: equal keys must share one answer-relevant class and one class (equal up to map/list/tuple order) must have one key.",
+    "Bound: |S| 15k-35k per function (up to 1.2M in thorough). Type names are restricted to strings model validation admits; nil and empty ObjectIDs are one class (pinned by the repository's own key test). 64-bit digests: equal digests are treated as equal encodings. keys.Seed pinned.",
+    "exhaustive pairwise decision over a finite input set by grouping (injectivity and canonicality of the key encodings)")
+add("C25", "E5-finite", "exploration",
+    "362 conditions (one per parameter type and operator of a small grammar) x the full product of request/stored context classes per parameter {absent, A, B, other spellings, mistyped, null, out of range} are evaluated with the real EvaluateTupleCondition and compared with an independent evaluator (stored value wins, documented conversion table, missing/unconvertible parameter => error).",
+    "Bound: 11 parameter types, <=2 parameters per condition (all type pairs in thorough). Not claimed: exponent/Inf numeric strings, undeclared context fields, CEL runtime errors. Trusted: h/c25/oracle.go.",
+    "exhaustive enumeration of a finite input domain on the implementation against an independent evaluator")
+add("C27", "E5-finite", "exploration",
+    "Preshared keys: 8 key configurations x 619 candidate tokens x 25 header forms through the real Authenticate; OIDC: the full product signature x alg x exp x iat x aud x iss x sub x subjects-configured (10k tokens, hand-assembled JWTs, loopback issuer) through the real RemoteOidcAuthenticator; accept <=> the rule list of the property; returned claims must be the token's.",
+    "Bound: product above (quick); kid variants, 2-key JWKS, 0-2 aliases/subjects in thorough (23M cases). Times are +-1h from now so the wall clock never decides. Absent iat is acceptable (the statement only excludes a future iat). Trusted: crypto/rsa, the harness' rule list.",
+    "exhaustive enumeration of a finite credential space on the implementation against the stated acceptance rule")
+add("C30", "E2-worlds", "exploration",
+    "Server.Expand for every world, split (stored/contextual), object and relation is compared with a tree built independently from the harness model's rewrite AST and the valid stored+contextual tuples: node kinds and nesting, object#relation names, TTU targets, leaf users sorted and duplicate-free; invalid leftover tuples are excluded.",
+    "Bound: 64 models (+8 with leftover tuples) in quick, all 738 in thorough, <=2 tuples. Trusted: the harness' tree construction (h/c30).",
+    "bounded exhaustive enumeration of inputs on the implementation against an independently constructed expected tree")
+add("C32", "E2-worlds", "exploration",
+    "Every world and request is mapped to AuthZEN: Evaluation vs native Check, Evaluations (nine batch variants x four semantics, item vs top-level defaults) vs the individual Checks, SubjectSearch vs ListUsers, ResourceSearch vs ListObjects on the same server.",
+    "Bound: 10 models in quick (120 in thorough), <=2 tuples; userset subjects are not expressible in AuthZEN and excluded. Trusted: the harness' own request mapping.",
+    "bounded exhaustive enumeration of inputs on the implementation; differential oracle (AuthZEN endpoint vs native API)")
+
 NOT_BUILT ="check not built yet in this session; see DESIGN.md §5 for the planned decision procedure"
 NA = {}
 
